@@ -151,7 +151,9 @@ def run_workers(binary, prop, seed, tier, ncases, budget, extra=None, samples=2)
     errs = []
     lock = threading.Lock()
     t_end = time.time() + budget
-    casecpu = CASE_CPU.get(prop, CASE_CPU_DEFAULT)
+    casecpu = CASE_CPU.get(prop, CASE_CPU_DEFAULT)  # (VERIF_CASECPU, tests of the watchdog path only, changes the first stage; replays keep 3x the regular budget)
+    if os.environ.get("VERIF_CASECPU"):
+        casecpu = int(os.environ["VERIF_CASECPU"])
 
     chunk = PROCESS_CHUNK.get(prop, 0)
 
@@ -288,7 +290,7 @@ def death_feat(etxt):
 # CPU budget per case (seconds). Cases take milliseconds to a few seconds; a task that never reaches
 # its next hook point (a real spin inside the library) is a violation of termination, reported as
 # class "hang" and confirmed by replaying the case alone with three times the budget.
-CASE_CPU = {"C03": 60, "C18": 240, "C19": 600}
+CASE_CPU = {"C03": 90, "C18": 240, "C19": 600}
 CASE_CPU_DEFAULT = 45
 # race builds fault so many pages (shadow memory is reset on every free) that more than a few
 # processes only contend in this VM: measured 2.4 cases/s with 1 worker, 2.0 cases/s with 4, 1.9 with 16
@@ -508,6 +510,8 @@ def check(prop, tier, seed):
         key = (r.get("class"), site)
         groups.setdefault(key, []).append(r)
     MAX_GROUPS = 6
+    MAX_HANG_REPLAYS = 16
+    slow_cases = []
     if len(groups) > MAX_GROUPS:
         extra = list(groups.items())[MAX_GROUPS:]
         print("NOTE: %d more failure groups not minimised: %s" % (len(extra), ", ".join("%s x%d" % (k[0], len(v)) for k, v in extra[:12])), flush=True)
@@ -519,11 +523,27 @@ def check(prop, tier, seed):
             print("HARNESS-ERROR: case %d: %s: %s" % (rs[0]["i"], rs[0].get("class"), rs[0].get("detail")), flush=True)
             continue
         handled = False
-        for r in rs[:3]:
+        # a CPU-watchdog verdict is the one place where time enters: every member of a "hang" group is
+        # replayed (not only three), because a member that completes on replay says nothing about the others
+        members = rs[:MAX_HANG_REPLAYS] if key[0] == "hang" else rs[:3]
+        if key[0] == "hang" and len(rs) > MAX_HANG_REPLAYS:
+            harness_err = True
+            print("HARNESS-ERROR: property=%s: %d cases exceeded their CPU budget, more than can be replayed one by one" % (prop, len(rs)), flush=True)
+        for r in members:
             try:
                 path, ok, final, why = shrink_and_confirm(binary, prop, seed, tier, r)
             except subprocess.TimeoutExpired:
                 path, ok, final, why = None, False, None, "minimisation timed out"
+            if not ok and key[0] == "hang" and why.startswith("the case finished"):
+                # the same deterministic execution terminated, alone (three times the budget) and after
+                # the same preceding cases: it was slow in a loaded worker, it does not hang
+                slow_cases.append(r["i"])
+                print("NOTE: property=%s case=%d exceeded its CPU budget in a loaded worker and finished when replayed alone and with its history: slow, not a hang" % (prop, r["i"]), flush=True)
+                try:
+                    os.remove(path)
+                except OSError:
+                    pass
+                continue
             if not ok:
                 harness_err = True
                 print("HARNESS-ERROR: property=%s case=%d class=%s does not reproduce from its own tape: %s (replay file %s)" % (prop, r["i"], r.get("class"), why, path), flush=True)
@@ -541,7 +561,7 @@ def check(prop, tier, seed):
             violations.append((path, final, len(rs)))
             handled = True
             break
-        if not handled and not harness_err:
+        if not handled and not harness_err and not (key[0] == "hang" and all(r["i"] in slow_cases for r in members)):
             harness_err = True
 
     for fid, ent in known_hits.items():
@@ -576,7 +596,8 @@ def check(prop, tier, seed):
             "samples": samples,
             "ok": len(oks),
             "skipped": len(skips),
-            "failed_cases": len(fails),
+            "failed_cases": len(fails) - len(slow_cases),
+            "slow_under_load_completed_on_replay": len(slow_cases),
             "simulated_events": events,
             "simulated_tasks": tasks,
             "distinct_schedule_signatures": len(scheds),
@@ -594,7 +615,7 @@ def check(prop, tier, seed):
             "exhaustive": False,
         },
         "assumptions": ASSUMPTIONS.get(prop, []) + [
-            "interleavings are explored at the granularity of the simhook points (every access to the shared block counter and every sink/source call)",
+            "interleavings are explored at the granularity of the simhook points (every access to the shared block counter, every sink/source call, WaitGroup waits, the boundaries of transform stages and of the entropy codec's life in each block task)",
             "execution is sequentially consistent (tasks run one at a time); non-atomic sharing is C18's business",
         ],
         "wall_s": round(wall, 2),
@@ -604,7 +625,7 @@ def check(prop, tier, seed):
     os.makedirs(evdir, exist_ok=True)
     with open(os.path.join(evdir, prop + ".json"), "w") as f:
         json.dump(ev, f, indent=1)
-    log("%s %s seed=%d: %d cases (%d ok, %d skip, %d fail) %d events, %d distinct schedules, %.1fs" % (prop, tier, seed, n, len(oks), len(skips), len(fails), events, len(scheds), wall))
+    log("%s %s seed=%d: %d cases (%d ok, %d skip, %d fail) %d events, %d distinct schedules, %.1fs" % (prop, tier, seed, n, len(oks) + len(slow_cases), len(skips), len(fails) - len(slow_cases), events, len(scheds), wall))
     if prop == "C19":
         import shutil
         shutil.rmtree(os.environ.get("KSIM_SCRATCH", "/nonexistent"), ignore_errors=True)
